@@ -23,7 +23,7 @@ REQUIRED_CLASSES = ['has-gap', 'has-unselected', 'one-cycle-chain', 'multi-cycle
 EXPECTED_LABELS = ['maps-total', 'subset-vector-definition', 'chain-vector-definition', 'sample->cycle', 'sample->subset',
                    'sample->chain', 'cycle->subset', 'cycle->chain', 'subset->chain', 'chain->samples',
                    'project-chain', 'project-subset', 'project-cycles']
-BUDGET_S = {'quick': 120, 'thorough': 720}
+BUDGET_S = {'quick': 120, 'thorough': 900}
 
 
 def configs(tier):
